@@ -104,14 +104,17 @@ pub fn run(id: usize, rng: &mut Rng) -> String {
                     let t0 = sched::now_ns();
                     let (name, res): (String, Option<Option<u64>>) = match op {
                         COp::Pop => {
+                            sched::log("call pop");
                             h.lock().unwrap()[ci].push(format!("pop:{}:-:blocked", t0));
                             ("pop".into(), Some(q.pop()))
                         }
                         COp::Try => {
+                            sched::log("call try");
                             h.lock().unwrap()[ci].push(format!("try:{}:-:blocked", t0));
                             ("try".into(), Some(q.try_pop()))
                         }
                         COp::Timeout(t) => {
+                            sched::log(&format!("call to{}", t));
                             h.lock().unwrap()[ci].push(format!("to{}:{}:-:blocked", t, t0));
                             (format!("to{}", t), Some(q.pop_timeout(Duration::from_micros(t))))
                         }
@@ -149,6 +152,7 @@ pub fn run(id: usize, rng: &mut Rng) -> String {
             });
         }
         let quiet = sched::settle(600_000_000_000);
+        sched::log("drain");
         // who is still inside a receive call?
         let blocked: Vec<usize> = sched::threads()
             .iter()
@@ -178,13 +182,15 @@ pub fn run(id: usize, rng: &mut Rng) -> String {
         (left, blocked, quiet)
     });
     let h = hist.lock().unwrap();
+    let labels = map_labels(&rep);
     format!(
-        "queue id={} seed={} ptimer={} prods={} cons={} | hist={} left={} blocked={} quiet={} aborted={} clock={}",
+        "queue id={} seed={} ptimer={} prods={} cons={} | labels={} hist={} left={} blocked={} quiet={} aborted={} clock={}",
         id,
         cfg.seed,
         cfg.p_timer,
         sc.prods.iter().map(|p| enc_p(p)).collect::<Vec<_>>().join("|"),
         sc.cons.iter().map(|c| enc_c(c)).collect::<Vec<_>>().join("|"),
+        labels,
         h.iter().map(|c| c.join(",")).collect::<Vec<_>>().join("|"),
         left.join(","),
         blocked.iter().map(|b| b.to_string()).collect::<Vec<_>>().join(","),
@@ -192,4 +198,82 @@ pub fn run(id: usize, rng: &mut Rng) -> String {
         if rep.aborted { 1 } else { 0 },
         rep.clock
     )
+}
+
+/// Turns the runtime's event log into labels of the Lean LTS `Lts.Queue`:
+///   +<ns> tick | c<t>:<call> | L<t> look | P<v>:<w|-> push | U:<w|-> unblock | T<t> timeout wake
+/// Receiver thread ids are the consumer indices.
+pub fn map_labels(rep: &sched::Report) -> String {
+    use std::collections::HashMap;
+    // runtime tid -> consumer index
+    let mut cons_of: HashMap<usize, usize> = HashMap::new();
+    for (tid, (name, _)) in rep.threads.iter().enumerate() {
+        if let Some(rest) = name.strip_prefix("cons") {
+            if let Ok(i) = rest.parse::<usize>() {
+                cons_of.insert(tid, i);
+            }
+        }
+    }
+    let mut out: Vec<String> = vec![];
+    let mut last_t = 0u64;
+    let mut pending_push: HashMap<usize, String> = HashMap::new(); // producer tid -> "P<v>" / "U"
+    let mut in_wait: HashMap<usize, bool> = HashMap::new();
+    let mut emit = |out: &mut Vec<String>, t: u64, l: String, last_t: &mut u64| {
+        if t > *last_t {
+            out.push(format!("+{}", t - *last_t));
+            *last_t = t;
+        }
+        out.push(l);
+    };
+    for e in &rep.events {
+        if e.what == "drain" {
+            break;
+        }
+        let w: Vec<&str> = e.what.split(' ').collect();
+        match w[0] {
+            "call" => {
+                if let Some(&c) = cons_of.get(&e.tid) {
+                    emit(&mut out, e.t, format!("c{}:{}", c, w[1]), &mut last_t);
+                }
+            }
+            "push" => {
+                pending_push.insert(e.tid, format!("P{}", w[1]));
+            }
+            "unblock" => {
+                pending_push.insert(e.tid, "U".to_string());
+            }
+            "lock" if w.get(1).map_or(false, |s| s.starts_with("messages_queue.rs")) => {
+                if let Some(&c) = cons_of.get(&e.tid) {
+                    in_wait.insert(e.tid, false);
+                    emit(&mut out, e.t, format!("L{}", c), &mut last_t);
+                }
+            }
+            "wait" if w.get(1).map_or(false, |s| s.starts_with("messages_queue.rs")) => {
+                in_wait.insert(e.tid, true);
+            }
+            "notify_one" if w.get(1).map_or(false, |s| s.starts_with("messages_queue.rs")) => {
+                if let Some(p) = pending_push.remove(&e.tid) {
+                    let woke = match w.get(2) {
+                        Some(x) if x.starts_with('t') => {
+                            let tid: usize = x[1..].parse().unwrap_or(usize::MAX);
+                            in_wait.insert(tid, false);
+                            cons_of.get(&tid).map(|c| c.to_string()).unwrap_or_else(|| "?".into())
+                        }
+                        _ => "-".to_string(),
+                    };
+                    emit(&mut out, e.t, format!("{}:{}", p, woke), &mut last_t);
+                }
+            }
+            "timer" => {
+                if let Some(&c) = cons_of.get(&e.tid) {
+                    if in_wait.get(&e.tid).cloned().unwrap_or(false) {
+                        in_wait.insert(e.tid, false);
+                        emit(&mut out, e.t, format!("T{}", c), &mut last_t);
+                    }
+                }
+            }
+            _ => {}
+        }
+    }
+    out.join(",")
 }
